@@ -129,10 +129,23 @@ def replay(args):
             q.i3 = m(p=q.i1.p, bp=h.NoConn())
             raised, dg, exc = ET.do_call(h, "to_proto", [q])
             outs.append({"tid": tid, "key": f"{shape}|newparent|ref_{name}", "val": exc if raised else dg})
+        def step_r():
+            # ... and the bundle-valued port of an instance that names it ONLY by port reference (not connected at the call): the reference itself
+            # is made on a child that was elaborated before - putting the parent together is part of what must still work
+            try:
+                r = h.Module(name="NewParentOnlyRef_" + name)
+                r.s = h.Signal()
+                r.i1 = m(p=r.s)
+                r.i2 = m(p=r.i1.p, bp=r.i1.bp)
+            except Exception as ex:
+                outs.append({"tid": tid, "key": f"{shape}|newparent|onlyref_{name}", "val": f"{type(ex).__name__}: could not be put together"})
+                return
+            raised, dg, exc = ET.do_call(h, "to_proto", [r])
+            outs.append({"tid": tid, "key": f"{shape}|newparent|onlyref_{name}", "val": exc if raised else dg})
         # (the order matters: each step that gets as far as exporting completes the child's elaboration for those that follow)
-        steps = [step_bad, step_p, step_q] if has_bp else [step_p]
+        steps = [step_bad, step_p, step_q, step_r] if has_bp else [step_p]
         if has_bp and (case.get("partial") or tid % 2):
-            steps = [step_q, step_bad, step_p]
+            steps = [step_r, step_q, step_bad, step_p] if tid % 4 >= 2 else [step_q, step_bad, step_p, step_r]
         for st in steps:
             st()
         if fresh:
